@@ -8,7 +8,9 @@
      mismatch_is_fault the content of a frame whose correlation id is not the one of the
                        oldest outstanding request is never delivered to any call
      fail_after_fault  no call succeeds unless its answer was sent before the first faulty
-                       frame, and no call started after an error was returned succeeds
+                       frame (wrong / out-of-order id, stalled or cut body, runt or oversized
+                       length, close), and no call started after a call has failed for a reason
+                       other than its own undecodable body succeeds
      no_hang           every call and Close return (watchdog), no_panic: without panicking
      inflight_bound    at no time more than Net.MaxOpenRequests requests have been received
                        by the server and are still unanswered. Counted only over requests
@@ -32,6 +34,7 @@ Fresh(max) == [max |-> max,
                outst |-> <<>>,        \* requests received by the server, not yet consumed by an answer
                faulted |-> FALSE,     \* the server has sent a faulty frame / closed
                okSent |-> {},         \* tags answered by a matching well-formed frame before any fault
+               answered |-> {},       \* tags consumed by a healthy frame (matching id, before any fault), whatever its body
                content |-> {},        \* contents of all well-formed frames sent
                misSent |-> {},        \* contents of frames whose correlation id was not the oldest outstanding one
                errSeen |-> FALSE,     \* some call has returned an error
@@ -69,15 +72,19 @@ TSrvSend ==
   /\ E.ev = "srv_send"
   /\ LET wf == E.n = 1
          oldestOK == st.outst # <<>> /\ E.corr = Head(st.outst).corr
-         match == wf /\ ~st.faulted /\ oldestOK /\ E.res = Head(st.outst).tag
+         \* a healthy frame: complete, correlation id of the oldest outstanding request, no fault before.
+         \* (Its body may still be undecodable - kind shortbody - which fails that call only.)
+         framed == wf /\ ~st.faulted /\ oldestOK
+         match == framed /\ E.res = Head(st.outst).tag
      IN /\ st' = [st EXCEPT
                     !.outst = Remove(@, E.tag),
                     !.reqs = [k \in DOMAIN @ |-> IF @[k].tag = E.tag /\ @[k].s = 0 THEN [@[k] EXCEPT !.s = E.i] ELSE @[k]],
-                    !.faulted = @ \/ ~match,
+                    !.faulted = @ \/ ~framed,
+                    !.answered = IF framed THEN @ \cup {Head(st.outst).tag} ELSE @,
                     !.okSent = IF match THEN @ \cup {E.res} ELSE @,
                     !.content = IF wf THEN @ \cup {E.res} ELSE @,
                     !.misSent = IF wf /\ ~oldestOK THEN @ \cup {E.res} ELSE @]
-        /\ stats' = [stats EXCEPT !.frames = @ + 1, !.faulty = IF match THEN @ ELSE @ + 1]
+        /\ stats' = [stats EXCEPT !.frames = @ + 1, !.faulty = IF framed THEN @ ELSE @ + 1]
   /\ UNCHANGED <<viol, feat>>
 
 TCallRet ==
@@ -85,7 +92,9 @@ TCallRet ==
   /\ LET ok == E.err = "" IN
      /\ st' = [st EXCEPT !.returned = @ \cup {E.tag},
                          !.succ = IF ok THEN @ \cup {E.tag} ELSE @,
-                         !.errSeen = @ \/ ~ok]
+                         \* an error of a call whose frame was healthy is that call's own decode error
+                         \* (or a spurious local timeout), not evidence of a connection fault
+                         !.errSeen = @ \/ (~ok /\ E.tag \notin st.answered)]
      /\ viol' = viol
           \cup When(E.err = "hang", "no_hang")
           \cup When(E.err = "panic", "no_panic")
@@ -94,6 +103,12 @@ TCallRet ==
           \cup When(ok /\ ((st.faulted /\ E.tag \notin st.okSent) \/ E.tag \in st.afterErr), "fail_after_fault")
      /\ stats' = IF ok THEN [stats EXCEPT !.ok = @ + 1] ELSE [stats EXCEPT !.err = @ + 1]
   /\ UNCHANGED feat
+
+\* a panic recovered by sarama's withRecover in a goroutine of this connection
+TPanic ==
+  /\ E.ev = "panic"
+  /\ viol' = viol \cup V("no_panic")
+  /\ UNCHANGED <<feat, st, stats>>
 
 TClose ==
   /\ E.ev \in {"close_start", "close_ret"}
@@ -127,7 +142,7 @@ TEnd ==
 
 Next == /\ l <= Len(Trace)
         /\ l' = l + 1
-        /\ (TReset \/ TCallStart \/ TSrvRecv \/ TSrvSend \/ TCallRet \/ TClose \/ TDone \/ TEnd)
+        /\ (TReset \/ TCallStart \/ TSrvRecv \/ TSrvSend \/ TCallRet \/ TClose \/ TPanic \/ TDone \/ TEnd)
 Spec == Init /\ [][Next]_vars
 Accepted == TLCGet("stats").diameter - 1 = Len(Trace)
 =============================================================================
